@@ -48,7 +48,7 @@ type (
 const (
 	_FULLPATTERN  = `('[^']*'+|\<\-|\*|[\w]+|\[[^\[\]]*\]|\{[^\{\}]*\})`
 	_ARRAYPATTERN = `\([^\)]*\)+|\w+`
-	_PIPEPATTERN  = `('[^']*'+|\w+)(!?\|\w+)|\w+`
+	_PIPEPATTERN  = `('[^']*'+|\w+)(!?\|\w+)?`
 )
 
 // IndexType enum
@@ -437,13 +437,31 @@ func init() {
 
 // parsedSelectors returns the parsed form of a selector, parsing and caching it on first use.
 // The deferred unlock releases the cache mutex also when parsing panics.
+// continuations splits a selector where `::` continues from the previous result; a `::` inside
+// a quoted key belongs to the key
+func continuations(selector string) []string {
+	parts := make([]string, 0)
+	quoted, start := false, 0
+	for i := 0; i < len(selector); i++ {
+		switch {
+		case selector[i] == _SQ:
+			quoted = !quoted
+		case !quoted && selector[i] == _COL && i+1 < len(selector) && selector[i+1] == _COL:
+			parts = append(parts, selector[start:i])
+			start = i + 2
+			i++
+		}
+	}
+	return append(parts, selector[start:])
+}
+
 func parsedSelectors(selector string) ([][]any, error) {
 	mut.Lock()
 	defer mut.Unlock()
 	allSelectors, ok := cache[selector]
 	if !ok {
 		allSelectors = make([][]any, 0)
-		selectors := strings.Split(selector, "::")
+		selectors := continuations(selector)
 		for _, item := range selectors {
 			selectors, err := ParseSelector(item)
 			if err != nil {
